@@ -308,6 +308,7 @@ func endOfList(owner, root ast.Vertex, src []byte) int {
 // printClause: printing a tree returned despite errors yields only tokens of
 // the source, each at most once and in source order.
 func printClause(src []byte, root ast.Vertex) (string, string) {
+	src = harness.Pristine(src) // the source as it was before the parse
 	tr := oracle.CheckTokens(src, root, false, false)
 	if tr.Clause != "" {
 		return "recovered-tokens/" + tr.Clause, "tokens of the recovered tree: " + tr.Msg
